@@ -104,6 +104,45 @@ def run(ctx):
                 missing = [v for v in want if v not in got][:3]
                 ctx.fail("prepending %d blank lines changed the findings beyond moving rows by %d" % (k, k),
                          {"file": n, "k": k, "content": content[:1500]}, None, {"extra": extra, "missing": missing})
+    # the editor range of every located violation of the unshifted runs: the real getRangeForViolation vs the model
+    # (theorem lsp_range_ordered), and the property itself: the range does not end before it starts and lies inside
+    # the file
+    rcases = []
+    for m, vs in base.items():
+        n, content = mods[m]
+        nlines = len(corpus.split_lines(content))
+        for v in vs:
+            title, cat, level, file, row, col, er, ec, text, agg = v
+            if not row:
+                continue
+            rc = {"id": len(rcases), "op": "c07.lsprange", "row": row, "col": col, "_file": n, "_v": v, "_nlines": nlines}
+            if er is not None:
+                rc["end"] = [er, ec]
+            if text is not None:
+                rc["text"] = text
+            rcases.append(rc)
+    if len(rcases) > (1500 if ctx.quick else 30000):
+        rcases = ctx.rng("lsprange").sample(rcases, 1500 if ctx.quick else 30000)
+        for k, rc in enumerate(rcases):
+            rc["id"] = k
+    if rcases:
+        ri, rm = ctx.impl(rcases), ctx.model(rcases)
+        multi = 0
+        for rc in rcases:
+            a, b = ri[rc["id"]].get("out"), rm[rc["id"]].get("out")
+            desc = {"file": rc["_file"], "violation": rc["_v"]}
+            if a != b:
+                ctx.brk("lint.go getRangeForViolation ~ Location.lspRange", desc, a, b)
+            if not a:
+                continue
+            multi += a[2] > a[0]
+            ctx.seen(rc, ("lsprange", rc["_file"], str(rc["_v"])) if a[2] > a[0] else None)
+            if (a[2], a[3]) < (a[0], a[1]):
+                ctx.fail("the editor range of a violation ends before it starts", desc, None, {"range": a})
+            if a[2] >= rc["_nlines"]:
+                ctx.fail("the editor range of a violation ends outside the file", desc, None, {"range": a, "lines": rc["_nlines"]})
+        ctx.count("lsp ranges checked", len(rcases))
+        ctx.count("lsp ranges spanning several lines", multi)
     ctx.assumption_sampling["WellFormedNode+RowEquivariant"] = {"modules": len(mods), "located_violations": located,
                                                                 "shift_runs": len(cases) - len(mods), **stats}
     ctx.sample({"module": mods[0][0], "violations": (base.get(0) or [])[:3]})
